@@ -7,6 +7,7 @@ import os
 import re
 
 import facts
+import shellai as SH
 import absgen as G
 import harness as H
 import models as M
@@ -79,17 +80,9 @@ def _ce_install(I, f, a):
     return ok(unit())
 
 
-@model("core::slice::<impl [T]>::contains")
-def _slice_contains(I, f, a):
-    el = M.as_elems(I, M.deref(I, a[0]))
-    x = M.deref(I, a[1])
-    for e in el:
-        if isinstance(e, Agg) and isinstance(x, Agg) and not e.fields and not x.fields:
-            if e.adt == x.adt and e.variant == x.variant:
-                return True
-        elif e == x:
-            return True
-    return False
+@M.model_re(r"^pyo3::exceptions::Py[A-Za-z]+::new_err$")
+def _py_new_err(I, f, a):
+    return Opaque("PyErr")
 
 
 @model("rand::rng")
@@ -698,81 +691,281 @@ EXPECTED_SH = {
 }
 
 
+def clap_table(prog):
+    """The clap argument table, read from the MIR of the derive-generated `<Cli as clap::Args>::augment_args`: one row per
+    `Arg::new(..) ... Command::arg(..)` builder chain (id, long, short, action, num_args, positional)."""
+    key = next((k for k in prog.bodies if k.endswith("<cli::Cli as clap::Args>::augment_args")), None)
+    if key is None:
+        raise KeyError("<cli::Cli as clap::Args>::augment_args not found")
+    rows, cur = [], None
+    for bb in prog.bodies[key]["blocks"]:
+        t = bb.get("t")
+        if not t or t["k"] != "call":
+            continue
+        path = t["f"].get("path", "")
+        nm = path.split("::")[-1]
+        if path == "clap::Arg::new":
+            cs = [a["c"]["v"].get("str") for a in t["args"] if "c" in a]
+            cur = {"id": cs[0] if cs else None, "long": None, "short": None, "action": None, "num_args": None}
+        elif cur is not None and path.startswith("clap::Arg::"):
+            cs = [a["c"]["v"] for a in t["args"] if "c" in a]
+            if nm == "long":
+                cur["long"] = cs[0].get("str") if cs else "?"
+            elif nm == "short":
+                cur["short"] = chr(cs[0]["char"]) if cs and "char" in cs[0] else "?"
+            elif nm == "action":
+                aggs = [st["rv"]["ak"].get("vn") for st in bb["s"] if st["k"] == "assign" and st["rv"]["k"] == "agg" and st["rv"]["ak"].get("t") == "adt"
+                        and "ArgAction" in st["rv"]["ak"].get("adt", "")]
+                cur["action"] = aggs[-1] if aggs else "?"
+            elif nm == "num_args":
+                cur["num_args"] = (t["f"].get("args") or ["?"])[0]
+            elif nm in ("allow_hyphen_values", "allow_negative_numbers", "value_delimiter", "value_terminator", "trailing_var_arg", "last", "raw", "index"):
+                cur.setdefault("special", []).append(nm)
+        elif cur is not None and path == "clap::Command::arg":
+            cur["positional"] = cur["long"] is None and cur["short"] is None
+            rows.append(cur)
+            cur = None
+    return rows
+
+
+def clap_parse(table, argv):
+    """abstract model of clap's argv parsing for the flat option table: -> (values: id -> list | True, errors)"""
+    by_long = {r["long"]: r for r in table if r["long"]}
+    by_short = {r["short"]: r for r in table if r["short"]}
+    positionals = [r for r in table if r["positional"]]
+    vals, errors = {}, []
+    pending = None          # (row, remaining minimum, variadic)
+    escaped = False
+    npos = 0
+
+    def first_lit(w):
+        return w[0] if w and isinstance(w[0], str) else None
+    for w in argv:
+        if any(isinstance(a, SH.Splice) for a in w):
+            errors.append(("splice", "an unquoted opaque expansion is spliced into the argument list"))
+            continue
+        fl = first_lit(w)
+        lit = SH.s_lit(w)
+        optlike = (fl is not None and fl.startswith("-") and fl != "-") and not escaped
+        if pending is not None:
+            row, need, variadic = pending
+            if not optlike and not (lit == "--" and not escaped):
+                vals.setdefault(row["id"], []).append(w)
+                need = max(0, need - 1)
+                pending = (row, need, variadic) if (variadic or need > 0) else None
+                continue
+            if need > 0:
+                errors.append(("missing-value/%s" % row["id"], "option --%s is followed by %r instead of its value" % (row["long"], w)))
+            pending = None
+        if lit == "--" and not escaped:
+            escaped = True
+            continue
+        if optlike:
+            if fl.startswith("--"):
+                name, eq, v = (lit or fl).partition("=") if lit is not None else (fl, "", "")
+                if lit is None and "=" not in fl:
+                    errors.append(("opaque-option", "option word %r is not literal" % (w,)))
+                    continue
+                row = by_long.get(name[2:])
+                if row is None:
+                    errors.append(("unknown-option/%s" % name, "the CLI has no option %s" % name))
+                    continue
+                inline = None
+                if "=" in fl:
+                    inline = SH.s_norm((fl.partition("=")[2],) + tuple(w[1:]))
+            else:
+                if lit is None or len(lit) != 2:
+                    errors.append(("short-cluster", "short option word %r is outside the model" % (w,)))
+                    continue
+                row = by_short.get(lit[1])
+                inline = None
+                if row is None:
+                    errors.append(("unknown-option/%s" % lit, "the CLI has no option %s" % lit))
+                    continue
+            if row["action"] in ("SetTrue", "SetFalse", "Count", "Help", "Version"):
+                if inline is not None:
+                    errors.append(("flag-value/%s" % row["id"], "flag --%s is given a value" % row["long"]))
+                if row["action"] == "SetTrue" and vals.get(row["id"]) is True:
+                    errors.append(("repeated/%s" % row["id"], "flag --%s is given twice (clap rejects it)" % row["long"]))
+                vals[row["id"]] = True
+                continue
+            if row["action"] == "Set" and row["id"] in vals:
+                errors.append(("repeated/%s" % row["id"], "option --%s is given twice (clap rejects a repeated single-value option)" % row["long"]))
+            variadic = bool(row["num_args"]) and ("RangeFrom" in row["num_args"] or "RangeFull" in row["num_args"])
+            if row["num_args"] and not variadic:
+                errors.append(("num-args/%s" % row["id"], "num_args(%s) of --%s is outside the model" % (row["num_args"], row["long"])))
+            if inline is not None:
+                vals.setdefault(row["id"], []).append(inline)
+                pending = (row, 0, True) if variadic else None
+            else:
+                vals.setdefault(row["id"], [])
+                pending = (row, 1, variadic)
+            continue
+        # positional
+        if npos >= len(positionals):
+            errors.append(("unexpected-positional", "unexpected positional argument %r" % (w,)))
+            continue
+        vals.setdefault(positionals[npos]["id"], []).append(w)
+        npos += 1
+    if pending is not None and pending[1] > 0:
+        errors.append(("missing-value/%s" % pending[0]["id"], "option --%s has no value" % pending[0]["long"]))
+    return vals, errors
+
+
+MUST_TRUE, MUST_FALSE = {"true"}, {"false"}
+
+
 def shell_rules(env, res):
+    """R13.g: the wrapper is interpreted on abstract inputs (shellai); the argv of every path is parsed with a model of clap over the
+    argument table read from the derive output; the resulting option values must be the INPUT_* values."""
     n = 0
     path = os.path.join(env.repo, "scripts", "action-run.sh")
+    loc = "scripts/action-run.sh"
     try:
         text = open(path).read()
     except OSError as e:
         res.add("R13.g", "action-run.sh/missing", "scripts/action-run.sh not readable: %s" % e)
         return 0
-    # flags the CLI really has (from the Cli ADT: long name = field name with '-')
+    try:
+        table = clap_table(env.prog)
+    except (KeyError, IndexError, TypeError) as e:
+        res.add("R13.g", "cli/arg-table", "cannot read the clap argument table from <Cli as clap::Args>::augment_args: %r" % (e,), "src/cli.rs")
+        return 0
+    by_long = {("--" + r["long"]): r for r in table if r["long"]}
+    positional = [r for r in table if r["positional"]]
+    for r in table:
+        n += 1
+        res.count("R13.g.table")
+        if r.get("special"):
+            res.add("R13.g", "cli/%s/parser-setting" % r["id"], "argument `%s` uses clap settings outside the parse model: %s" % (r["id"], r["special"]), "src/cli.rs")
+        if r["action"] not in ("Set", "Append", "SetTrue"):
+            res.add("R13.g", "cli/%s/action" % r["id"], "argument `%s` has action %s, outside the parse model" % (r["id"], r["action"]), "src/cli.rs")
+    res.floor("R13.g.table", 12, "clap arguments")
     cli_fields = [f["name"] for f in env.prog.adts[env.prog.adt_of("cli::Cli")]["variants"][0]["fields"]]
-    long_flags = {"--" + f.replace("_", "-") for f in cli_fields if f != "file"}
-    # parse `if <cond>; then ... fi` blocks
-    blocks = re.findall(r"\nif (.*?); then\n(.*?)\nfi", text, re.S)
-    mapping = {}
-    for cond, body in blocks:
-        vars_ = re.findall(r"\$\{(INPUT_[A-Z_]+)(?::-)?\}", cond)
-        if not vars_:
-            continue
-        var = vars_[0]
-        adds = re.findall(r"args\+=\((.*?)\)", body)
-        kind = "bool" if cond.strip().startswith("is_true") else "value"
-        words = [shell_words(a) for a in adds]
-        mapping.setdefault(var, []).append((kind, words, cond, body))
+    if sorted(cli_fields) != sorted(r["id"] for r in table):
+        res.add("R13.g", "cli/arg-table/fields", "clap argument ids %r differ from the Cli fields %r" % (sorted(r["id"] for r in table), sorted(cli_fields)), "src/cli.rs")
+    # which Cli argument each input stands for
+    spec = {}
     for var, (flag, kind) in EXPECTED_SH.items():
+        if kind == "positional":
+            if len(positional) != 1:
+                res.add("R13.g", "cli/positional", "the CLI has %d positional arguments, expected exactly FILE" % len(positional), "src/cli.rs")
+                continue
+            spec[var] = (positional[0], kind)
+        else:
+            row = by_long.get(flag)
+            if row is None:
+                res.add("R13.g", "cli/%s" % flag, "the CLI has no flag %s (arguments: %s)" % (flag, sorted(by_long)), "src/cli.rs")
+                continue
+            want = {"value": ("Set",), "bool": ("SetTrue",), "list": ("Append",)}[kind]
+            if row["action"] not in want:
+                res.add("R13.g", "cli/%s/kind" % flag, "%s has action %s, the wrapper's input is a %s" % (flag, row["action"], kind), "src/cli.rs")
+            spec[var] = (row, kind)
+    cache_key = ("shellai", text)
+    paths, problems = env.memo(cache_key, lambda: SH.analyse(text, inputs=set(EXPECTED_SH) | {"INPUT_ARGS"}))
+    for k, msg in problems:
+        res.add("R13.g", "action-run.sh/%s" % k, "action-run.sh cannot be analysed: %s" % msg, loc)
+    if problems:
+        return n
+    seen = set()
+    paths = sorted(paths, key=lambda p: sum(1 for v in p["empty"].values() if not v))
+
+    def add(key, msg, p):
+        if key in seen:
+            return
+        seen.add(key)
+        setv = sorted(v for v, e in p["empty"].items() if not e)
+        cond = "inputs set: %s%s" % (", ".join(setv) or "none", "".join("; %s in %s" % (o, sorted(s)) for o, s in p["in_set"].items()))
+        argvs = " | ".join(" ".join("".join(a if isinstance(a, str) else repr(a) for a in w) or "''" for w in inv[0]) for inv in p["invocations"])
+        res.add("R13.g", key, "%s [%s; argv: %s]" % (msg, cond, argvs or "-"), loc, {"inputs_set": setv, "argv": argvs})
+    used_inputs = set()
+    for p in paths:
         n += 1
         res.count("R13.g")
-        ent = mapping.get(var)
-        if not ent:
-            res.add("R13.g", "action-run.sh/%s/missing" % var, "action-run.sh does not consume %s" % var, "scripts/action-run.sh")
+        used_inputs |= set(p["empty"])
+        for k, msg in p["problems"]:
+            add("action-run.sh/%s" % re.sub(r"[^A-Za-z0-9_./-]+", "_", k)[:70], msg, p)
+        if any(k in ("unsupported", "control") for k, _ in p["problems"]):
             continue
-        k, words, cond, body = ent[0]
-        flat = [w for ws in words for w in ws]
-        if kind == "bool":
-            if k != "bool" or flat != [flag]:
-                res.add("R13.g", "action-run.sh/%s" % var, "%s must add exactly %s when true (through is_true); found %r" % (var, flag, flat), "scripts/action-run.sh")
-        elif kind == "value":
-            if flat != [flag, "${%s}" % var]:
-                res.add("R13.g", "action-run.sh/%s" % var, "%s must be passed as `%s \"${%s}\"`; found %r" % (var, flag, var, flat), "scripts/action-run.sh")
-        elif kind == "list":
-            if flag not in flat or "$mutator" not in flat or "IFS=', '" not in body:
-                res.add("R13.g", "action-run.sh/%s" % var, "%s must be split on ', ' and passed as repeated %s flags; found %r" % (var, flag, flat), "scripts/action-run.sh")
-        elif kind == "positional":
-            if "${%s}" % var not in flat:
-                res.add("R13.g", "action-run.sh/%s" % var, "%s must be passed as the positional FILE; found %r" % (var, flat), "scripts/action-run.sh")
-        if flag and flag not in long_flags:
-            res.add("R13.g", "cli/%s" % flag, "the CLI has no flag %s (fields: %s)" % (flag, cli_fields), "src/cli.rs")
-    for var in mapping:
-        if var not in EXPECTED_SH and var not in ("INPUT_ARGS",):
-            res.add("R13.g", "action-run.sh/%s/unknown" % var, "action-run.sh consumes %s, which has no CLI counterpart in the rule table" % var, "scripts/action-run.sh")
-    # the wrapper is a flat option-to-argv mapping: every statement must be one of the recognised forms, so that
-    # nothing else can transform the values on their way to the CLI (fails closed on anything unknown)
-    ALLOWED = [
-        r"^#", r"^set -euo pipefail$", r"^is_true\(\) \{$", r"^case \"\$\{1:-\}\" in$", r"^true\|TRUE\|True\|1\|yes\|YES\|Yes\) return 0 ;;$",
-        r"^\*\) return 1 ;;$", r"^esac$", r"^\}$", r"^fi$", r"^done$", r"^args=\(\)$", r"^exit [01]$", r"^echo .*$",
-        r"^if \[\[ -n \"\$\{INPUT_[A-Z_]+:-\}\" \]\]; then$", r"^if is_true \"\$\{INPUT_[A-Z_]+:-\}\"; then$",
-        r"^if \[\[ \$\{#args\[@\]\} -eq 0 \]\]; then$",
-        r"^args\+=\((--[a-z-]+ )?\"\$\{INPUT_[A-Z_]+\}\"\)$", r"^args\+=\(--[a-z-]+\)$", r"^args\+=\(--mutators \"\$mutator\"\)$",
-        r"^IFS=', ' read -r -a mutators <<< \"\$\{INPUT_MUTATORS\}\"$", r"^for mutator in \"\$\{mutators\[@\]\}\"; do$",
-        r"^\[\[ -z \"\$mutator\" \]\] && continue$", r"^pickle-fuzzer \$\{INPUT_ARGS\}$", r"^pickle-fuzzer \"\$\{args\[@\]\}\"$",
-    ]
-    for ln in text.splitlines():
-        s = ln.strip()
-        if not s:
+        nonempty = {v for v, e in p["empty"].items() if not e}
+        inv = p["invocations"]
+        if "INPUT_ARGS" in nonempty:
+            ok_pass = len(inv) == 1 and len(inv[0][0]) == 1 and inv[0][0][0] == (SH.Splice("INPUT_ARGS"),)
+            if not ok_pass:
+                add("action-run.sh/INPUT_ARGS/passthrough", "with INPUT_ARGS set the wrapper must run `pickle-fuzzer ${INPUT_ARGS}` and nothing else", p)
+            elif inv[0][1] == "fail" and p["rc"] == 0:
+                add("action-run.sh/INPUT_ARGS/status", "a failing pickle-fuzzer run is reported as success", p)
             continue
-        n += 1
-        if not any(re.match(p, s) for p in ALLOWED):
-            res.add("R13.g", "action-run.sh/statement/%s" % re.sub(r"[^A-Za-z0-9_]+", "_", s)[:60],
-                    "action-run.sh contains a statement outside the recognised option-to-argv forms: `%s` (it may transform option values before they reach the CLI)" % s,
-                    "scripts/action-run.sh")
-    if not re.search(r'pickle-fuzzer "\$\{args\[@\]\}"', text):
-        res.add("R13.g", "action-run.sh/invocation", "action-run.sh does not invoke `pickle-fuzzer \"${args[@]}\"`", "scripts/action-run.sh")
-    # is_true accepts true/1/yes
-    m = re.search(r"is_true\(\) \{(.*?)\n\}", text, re.S)
-    if not m or not all(x in m.group(1) for x in ("true", "1", "yes", "return 0", "return 1")):
-        res.add("R13.g", "action-run.sh/is_true", "is_true() helper not recognised", "scripts/action-run.sh")
+
+        def truthy(var):
+            """(may be 'true', may be 'false'/empty) on this path"""
+            if var not in nonempty:
+                return (False, True)
+            ins, nin = p["in_set"].get(var), p["not_in"].get(var, set())
+            if ins is not None:
+                return (bool(ins & MUST_TRUE), bool(ins & MUST_FALSE))
+            return (not (MUST_TRUE <= nin), not (MUST_FALSE <= nin))
+        wants_any = any(v in nonempty for v in EXPECTED_SH)
+        both = "INPUT_OUTPUT_DIR" in nonempty and "INPUT_OUTPUT_FILE" in nonempty
+        neither = "INPUT_OUTPUT_DIR" not in nonempty and "INPUT_OUTPUT_FILE" not in nonempty
+        if both:
+            if inv and all(s == "ok" for _, s in inv) and False:
+                pass
+            continue        # rejected by the wrapper or by clap (conflicts_with); no bytes are produced either way
+        if not inv:
+            if neither:
+                continue    # nothing to write to: the CLI would reject the call as well (FILE or --dir is required)
+            add("action-run.sh/no-invocation", "the wrapper ends (status %d) without running pickle-fuzzer although an output was requested" % p["rc"], p)
+            continue
+        if len(inv) != 1:
+            add("action-run.sh/invocations", "the wrapper runs pickle-fuzzer %d times" % len(inv), p)
+            continue
+        argv, status = inv[0]
+        if status == "fail" and p["rc"] == 0:
+            add("action-run.sh/status", "a failing pickle-fuzzer run is reported as success (exit 0)", p)
+        if status == "ok" and p["rc"] != 0:
+            add("action-run.sh/status-ok", "the wrapper exits %d although pickle-fuzzer succeeded" % p["rc"], p)
+        if neither:
+            continue
+        vals, errors = clap_parse(table, argv)
+        for k, msg in errors:
+            add("action-run.sh/argv/%s" % k, "clap rejects the argument list the wrapper builds: %s" % msg, p)
+        if errors:
+            continue
+        for var, (row, kind) in spec.items():
+            got = vals.get(row["id"])
+            if kind in ("value", "positional"):
+                want = [(SH.Tok(var),)] if var in nonempty else None
+                if got != want:
+                    what = "consumed by another option or dropped" if got is None else "passed as %r" % (got,)
+                    add("action-run.sh/argv/%s/%s" % (row["id"], "missing" if got is None else "value"),
+                        "%s must reach the CLI as %s; it is %s" % (var, ("--" + row["long"] + " VALUE") if row["long"] else "the positional FILE", what) if want else
+                        "%s is empty but the CLI receives %s %r" % (var, row["id"], got), p)
+            elif kind == "bool":
+                mt, mf = truthy(var)
+                if got is True and mf:
+                    add("action-run.sh/argv/%s/enabled-by-false" % row["id"], "--%s is passed although %s may be 'false' or empty" % (row["long"], var), p)
+                if got is not True and mt:
+                    add("action-run.sh/argv/%s/true-ignored" % row["id"], "%s = 'true' does not add --%s" % (var, row["long"]), p)
+            elif kind == "list":
+                so = p["split_of"].get(var)
+                want = [e for e in so[1] if len(e)] if (so and var in nonempty) else None
+                if var in nonempty and so is None:
+                    want = [(SH.Tok(var),)]
+                if so is not None and set(so[0]) - set(", \t\n") :
+                    add("action-run.sh/%s/separators" % var, "%s is split on %r, expected commas and blanks" % (var, so[0]), p)
+                if (got or None) != (want or None):
+                    add("action-run.sh/argv/%s/%s" % (row["id"], "missing" if not got else "value"),
+                        "%s must reach the CLI as one --%s value per entry, in order (%r); the CLI receives %r" % (var, row["long"], want, got), p)
+        for rid, got in vals.items():
+            if not any(row["id"] == rid for row, _ in spec.values()):
+                add("action-run.sh/argv/%s/unrequested" % rid, "the wrapper passes `%s`, which no input asks for" % rid, p)
+    res.floor("R13.g", 2000, "wrapper paths")
+    for var in EXPECTED_SH:
+        if var not in used_inputs:
+            res.add("R13.g", "action-run.sh/%s/missing" % var, "action-run.sh never reads %s" % var, loc)
+    for var in sorted(v for v in re.findall(r"INPUT_[A-Z_]+", text) if v not in EXPECTED_SH and v != "INPUT_ARGS"):
+        res.add("R13.g", "action-run.sh/%s/unknown" % var, "action-run.sh consumes %s, which has no CLI counterpart in the rule table" % var, loc)
     # action.yml passes every input in the run step
     try:
         yml = open(os.path.join(env.repo, "action.yml")).read()
